@@ -184,6 +184,10 @@ class DimensionLink:
         else:
             raise RuntimeError("Invalid DataObjectType attribute found in "
                                "DimensionLink")
+        # the unit belongs to the linked data object: that object changed
+        if self.file.auto_update_timestamps:
+            time = util.now_int()
+            lobj.set_attr("updated_at", util.time_to_str(time))
 
     @property
     def label(self):
@@ -217,6 +221,10 @@ class DimensionLink:
         else:
             raise RuntimeError("Invalid DataObjectType attribute found in "
                                "DimensionLink")
+        # the label belongs to the linked data object: that object changed
+        if self.file.auto_update_timestamps:
+            time = util.now_int()
+            lobj.set_attr("updated_at", util.time_to_str(time))
 
     @property
     def _data_object_type(self):
